@@ -21,6 +21,7 @@ type c04Args struct {
 	Role    string // daemon | runner
 	K       int    // crash at the K-th point of a process of that role (0: counting run)
 	Second  int    // >0: crash the restarted daemon again at its Second-th point, then start a third time
+	Gate    string // history R1: n2 is parked at this hook point of its submission handler while n1 is killed
 }
 
 type ackUnit struct {
@@ -135,6 +136,9 @@ func crashPointOf(logPath string) string {
 func execC04(w *W, raw json.RawMessage) CaseOut {
 	var a c04Args
 	json.Unmarshal(raw, &a)
+	if strings.HasPrefix(a.History, "R") {
+		return execC04Remote(a)
+	}
 	var out CaseOut
 	out.Nontrivial = a.K > 0
 	dir, err := os.MkdirTemp(scratchDir(), "c04-")
@@ -286,9 +290,9 @@ func execC04(w *W, raw json.RawMessage) CaseOut {
 }
 
 func coordC04(c *Coord) {
-	hist := []string{"H1", "H2"}
+	hist := []string{"H1", "H2", "R1"}
 	if c.Thorough() {
-		hist = []string{"H1", "H2", "H3", "H5"}
+		hist = []string{"H1", "H2", "H3", "H5", "R1"}
 	}
 	p := c.newPool()
 	defer p.close()
@@ -314,6 +318,12 @@ func coordC04(c *Coord) {
 		// so go a few positions beyond it (an execution whose k is never reached simply has no crash)
 		for k := 1; k <= len(cnt["daemon"])+3; k++ {
 			jobs = append(jobs, c04Args{History: h, Role: "daemon", K: k})
+		}
+		if h == "R1" {
+			for _, g := range []string{"alloc.saved", "submit.stdin_created", "submit.stdin_closed", "submit.before_start"} {
+				jobs = append(jobs, c04Args{History: h, Role: "daemon", Gate: g})
+			}
+			continue
 		}
 		// runner points: per runner process; the longest runner of the history bounds k
 		maxRunner := 0
@@ -364,8 +374,8 @@ func init() {
 		ID:        "C04",
 		Level:     "fault_enumeration",
 		Technique: "crash-point enumeration on the real daemon and its command-runner: the process kills itself (SIGKILL) at the k-th hook point it reaches, for every k of each history; restart on the same data directory; acknowledged units compared with the submitter's model",
-		Rule: "histories: H1 one local unit to completion + results; H2 two submissions, the second while the first runs (thorough: H3 unit still running at the crash, H5 failing unit + release of a finished unit); for each history every daemon crash point k=1..n+3 (n from a counting run) and every runner crash point; thorough: H1 with a second crash at the 1st..12th point of the recovery. " +
-			"A case is one (history, role, k); all are distinct; non-trivial = a crash point was selected. Oracle after restart: every acknowledged unit listed with its work type; a unit seen finished keeps state and size and its full output can be fetched; other units reach a final state within 25 s (daemon crashes); every query answers.",
+		Rule: "histories: H1 one local unit to completion + results; H2 two submissions, the second while the first runs (thorough: H3 unit still running at the crash, H5 failing unit + release of a finished unit); R1 a unit submitted by n1 to a second real daemon n2 over a TCP link, followed to completion, with n1 killed at each of its points and, in addition, from outside while n2 is parked at {unit allocated, stdin file created, input received, before start} of its submission handler; for each history every daemon crash point k=1..n+3 (n from a counting run) and every runner crash point; thorough: H1 with a second crash at the 1st..12th point of the recovery. " +
+			"A case is one (history, role, k); all are distinct; non-trivial = a crash point was selected. Oracle after restart: every acknowledged unit listed with its work type; a unit seen finished keeps state and size and its full output can be fetched; other units reach a final state within 25 s (daemon crashes); every query answers; remote work: listed as remote work for the same node and type, a remote unit ID named by the record at the crash (or, once n2 has received the input, created by n2) is the one named after the restart.",
 		Assumptions: []string{"process kill between two hook points (file-system steps), not power loss with torn writes", "real time: a query counts as unanswered after 30 s", "a runner that died is checked for listing and answering only"},
 		Exec:        execC04,
 		Coord:       coordC04,
